@@ -277,6 +277,82 @@ def request_case(case, fail):
     return bool(s.any())
 
 
+def added_code_case(case, fail):
+    """A code of the user's own, put on the menu the documented way
+    (gui.add_code): it is offered, so every request must serve it."""
+    from panqec.codes import Toric2DCode
+    from panqec.error_models import PauliErrorModel
+    gui, _ = client()
+
+    class MyVerifToricCode(Toric2DCode):
+        # drawn like the toric code (looks its pictures up under that name)
+        @property
+        def id(self):
+            return 'Toric2DCode'
+
+    label = 'My verif code'
+    import panqec.gui._gui as guimod
+    before = (dict(gui.codes), dict(guimod.codes))
+    gui.add_code(MyVerifToricCode, label)
+    try:
+        status, names = post('/code-names', {'dimension': 2})
+        if status != 200 or label not in names:
+            fail('added_code_offered', f'/code-names (2d) does not list the added code: HTTP {status}')
+            return False
+        size = tuple(case['size'])
+        code = MyVerifToricCode(*size)
+        status, defs = post('/deformation-names', {'code_name': label})
+        if status != 200 or list(defs) != list(MyVerifToricCode.deformation_names):
+            fail('added_code_served', f'/deformation-names: HTTP {status} {defs}')
+        status, decs = post('/decoder-names', {'code_name': label})
+        want = sorted(nm for nm, k in gui.decoders.items()
+                      if k.allowed_codes is None or 'MyVerifToricCode' in k.allowed_codes)
+        if status != 200 or sorted(decs) != want:
+            fail('added_code_served', f'/decoder-names: HTTP {status}, {decs} (declaring support: {want})')
+        payload = {'Lx': size[0], 'Ly': size[1], 'Lz': size[0], 'code_name': label,
+                   'code_deformation_name': 'None', 'rotated_picture': False}
+        status, body = post('/code-data', payload)
+        if status != 200:
+            fail('added_code_served', f'/code-data: HTTP {status}')
+        else:
+            check_descriptions(code, body, dict(case, rotated=False), fail)
+            if not np.array_equal(np.asarray(body['H']), gf2.to_dense(code.stabilizer_matrix)):
+                fail('H_identical', 'added code: served H differs from the library')
+        em = PauliErrorModel(1 / 3, 1 / 3, 1 / 3)
+        e = domain.random_bsf(np.random.default_rng(case['rseed']), code.n, 0.1)
+        s_ = [int(v) for v in code.measure_syndrome(e)]
+        req = {'Lx': size[0], 'Ly': size[1], 'Lz': size[0], 'code_name': label,
+               'code_deformation_name': 'None', 'p': 0.1, 'noise_deformation_name': 'None',
+               'error_model': 'Depolarizing', 'syndrome': s_, 'decoder': 'BP-OSD',
+               'max_bp_iter': 10, 'alpha': 0.4, 'beta': 0, 'channel_update': False}
+        status, body = post('/decode', req)
+        if status != 200:
+            fail('added_code_served', f'/decode: HTTP {status}')
+        else:
+            dec = gui.decoders['BP-OSD'](code, em, 0.1, max_bp_iter=10, osd_order=0)
+            want_c = np.asarray(dec.decode(np.array(s_)))
+            got = np.concatenate([np.asarray(body['x']), np.asarray(body['z'])])
+            if got.shape != want_c.shape or not np.array_equal(got % 2, want_c % 2):
+                fail('decode_equals_library', 'added code: /decode differs from the library decoder')
+        with SeededRNGPatch(case['rseed']):
+            status, body = post('/new-errors', {k: req[k] for k in (
+                'Lx', 'Ly', 'Lz', 'code_name', 'code_deformation_name', 'p',
+                'noise_deformation_name', 'error_model')})
+        if status != 200:
+            fail('added_code_served', f'/new-errors: HTTP {status}')
+        else:
+            with SeededRNGPatch(case['rseed']):
+                want_e = np.asarray(em.generate(code, 0.1))
+            if not np.array_equal(np.asarray(body), want_e):
+                fail('new_errors_equals_library', 'added code: /new-errors differs from the library')
+    finally:
+        for reg, old in ((gui.codes, before[0]), (guimod.codes, before[1])):
+            for k in list(reg):
+                if k not in old:
+                    del reg[k]
+    return True
+
+
 class _Fail:
     def __init__(self):
         self.items = []
@@ -299,6 +375,10 @@ def eval_case(case):
         representation_case(case, fail)
         nt = case['size'][0] >= 7
         labels = ['representation', case['cls'], f"L={min(case['size'])}"]
+    elif case['kind'] == 'added-code':
+        added_code_case(case, fail)
+        nt = True
+        labels = ['added-code']
     elif case['kind'] == 'decoder-names':
         decoder_names_case(case, fail)
         nt = True
@@ -463,4 +543,8 @@ def run(ctx):
     ctx.run_cases(rep, chunk=1)
     ctx.run_cases([c for c in cases if c['kind'] != 'representation'], chunk=4)
     ctx.run_cases(large_decode_cases(not quick, 6500 if quick else 25000), chunk=1)
+    ctx.run_cases([{'kind': 'added-code', 'label': 'My verif code', 'cls': 'Toric2DCode',
+                    'size': list(sz), 'rseed': ctx.seed + i}
+                   for i, sz in enumerate([(2, 2), (3, 4)] if quick else
+                                          [(2, 2), (3, 4), (5, 5), (4, 7), (12, 12)])], chunk=1)
     ctx.run_hypothesis('request_cases', 400 if quick else 20000)
